@@ -1,6 +1,6 @@
 (* C09 — the cluster update is weight-preserving and reversible. *)
 From Coq Require Import List QArith ZArith NArith Bool Arith.
-From QmcV Require Import Model.Prog Model.Sse Model.Nav Model.Cluster Model.ClusterValid Proofs.ProgLemmas Proofs.ClusterProofs Proofs.ClusterFlipProofs.
+From QmcV Require Import Model.Prog Model.Sse Model.Nav Model.Cluster Model.ClusterValid Proofs.ProgLemmas Proofs.ClusterProofs Proofs.ClusterFlipProofs Model.Diagonal Proofs.Expect Proofs.SweepStationary Proofs.GroupKernel Proofs.TimestepStationary.
 Import ListNotations.
 
 (* whatever labelling and whatever flip outcomes: number, positions, bonds, variables and
@@ -76,3 +76,24 @@ Theorem C09_validator_links : forall sl b v p k q k', links_ok sl b = true ->
   In (p, k) (ops_on_var sl v) -> next_wrap sl p v = Some (q, k') -> snd (bget b p) = fst (bget b q).
 Proof. exact links_ok_next_wrap. Qed.
 Print Assumptions C09_validator_links.
+
+(* reversibility as a statement about probabilities: the cluster update, as a kernel on complete configurations
+   (one fair bit per cluster, apply the flips), reaches y from x exactly as likely as x from y, weights included,
+   on every space of validated configurations closed under cluster flips *)
+Theorem C09_cluster_kernel_detailed_balance : forall H beta xs x y,
+  NoDup xs -> cluster_ready H xs -> In x xs -> In y xs ->
+  (sse_weight H beta (snd x) * mass (cfg_eqb y) (denote (gkernel cl_act cl_k x))
+   == sse_weight H beta (snd y) * mass (cfg_eqb x) (denote (gkernel cl_act cl_k y)))%Q.
+Proof.
+  intros H beta xs x y Hnd Hcr.
+  exact (gkernel_detailed_balance cfg_eqb cfg_eqb_ok cl_act cl_k (W H beta) xs
+           (cl_k_act H xs Hcr) (cl_act_invol H xs Hcr) (cl_act_weight H beta xs Hcr) x y).
+Qed.
+Print Assumptions C09_cluster_kernel_detailed_balance.
+
+(* that kernel is the model's cluster update: same expectation for every observable *)
+Theorem C09_cluster_update_is_kernel : forall c (f : cfg -> Q),
+  (Nat.eqb (count_ops (snd c)) 0 = false -> decompose (snd c) <> None) ->
+  (expect (cluster_cfg c) f == expect (gkernel cl_act cl_k c) f)%Q.
+Proof. exact cluster_cfg_is_gkernel. Qed.
+Print Assumptions C09_cluster_update_is_kernel.
